@@ -14,7 +14,7 @@ C19 loaddata  C19.cvrp.load_data.{raises,demand-rowwise,other-keys,reset-content
               C19.mtvrp.load_data.{raises,scale-rowwise,noscale,other-keys,scale.masks-equivalent},
               C19.generate_dataset.<problem>.{raises,loader-content,deterministic,seed-sensitive,reset-content}
               oracle: numpy arithmetic on the raw arrays of the npz file (demand[i, j] / capacity[i]); masks of the unscaled instance.
-C19 sched     C19.<fjsp|jssp>.{raises,write-text,read-content,file-generator.content,file-generator.order,load_data.content,masks-along-actions}
+C19 sched     C19.<fjsp|jssp>.{raises,write-text,read-content,read-content.padded,file-generator.content,file-generator.order,load_data.content,masks-along-actions}
               oracle: jobs / operations / (machine, duration) structure extracted by own code from the generated instance, an own
               parser of the text files, and the env on the ORIGINAL instances driven by the same random action sequence.
 C19 envcopy   C19.env.<deepcopy|pickle>.<env>.{raises,attributes,rng-state,reset-state,masks-along-actions,reward},
@@ -425,6 +425,12 @@ def sec_sched(tmp, seed):
                   "text files (own parser) do not hold the instances' jobs/ops/(machine,duration) in order", {**cfg, "first_file": open(files[0]).read() if files else None})
             singles = [parser.read(f) for f in files]
             check(all(structure(s[0], 0) == w and s[1:3] == (gp["num_jobs"], gp["num_machines"]) for s, w in zip(singles, want)), P + "read-content", "parser.read(file i) != instance i", cfg)
+            # the same file read with room for more operations (what the file generator does for the smaller files of a
+            # directory of mixed sizes): same jobs / operations, padding flagged and empty, at the END
+            padded = [parser.read(f, int(s[0]["proc_times"].shape[-1]) + 2) for f, s in zip(files, singles)]
+            check(all(structure(p_[0], 0) == w and int(p_[0]["proc_times"].shape[-1]) == int(s[0]["proc_times"].shape[-1]) + 2
+                      and bool(p_[0]["pad_mask"][0, -2:].all()) for p_, s, w in zip(padded, singles, want)),
+                  P + "read-content.padded", "parser.read(file i, max_ops = n_ops + 2) != instance i followed by two flagged empty columns", cfg)
             env2 = get_env(kind, generator_params={"file_path": d})
             order = [int(os.path.basename(f)[:4]) - 1 for f in env2.generator.files]  # which written instance each generator row comes from
             td2 = env2.reset(batch_size=[B])
